@@ -143,7 +143,9 @@ pub fn check(sc: &Scenario, ex: &mut Exec) -> (Verdict, Option<String>) {
                     if let Some(ci) = rs.col(name) {
                         for r in &rs.rows {
                             let v = num(&r[ci]).unwrap_or(1.0);
-                            if *c != 0.0 && v != 1.0 {
+                            // (a unit sitting exactly on the bound gets 1 / greatest(1, norm / C) with
+                            // norm / C = 1 + a few ulps: a factor within 1e-9 of 1 is 1)
+                            if *c != 0.0 && (v - 1.0).abs() > 1e-9 {
                                 // the rows that public key values without data contribute (left
                                 // join with the declared values) form a phantom unit with a NULL
                                 // id and one row per empty group: not a privacy unit of the data
